@@ -29,6 +29,12 @@ import sympy
 from . import circuits as GC
 from . import siblings as SB
 
+
+def _def_width(d):
+    """qubits of a custom gate definition, from its public matrix"""
+    return int(d.matrix.shape[0]).bit_length() - 1
+
+
 FIXED_1Q = ["X", "Y", "Z", "H", "S", "T", "SX", "I"]
 PARAM_1Q = ["RX", "RY", "RZ", "PHASE", "RH", "GPi", "GPi2"]
 FIXED_2Q = ["CNOT", "CZ", "SWAP", "ISWAP"]
@@ -142,7 +148,7 @@ def draw_pools(rng, nprng, max_arity, *, unitary_only=True, custom_defs=None, pa
         if rng.random() < 0.25:
             bases.append(("custom2", two_param_def("Sib2_%d" % rng.randint(0, 999))))
     for d in custom_defs or []:
-        if d._n_qubits <= max_arity:
+        if _def_width(d) <= max_arity:
             bases.append(("custom0", d))
     if focus == "inner":
         const = [w for w in avail if w in CONST_NAME]
